@@ -2,11 +2,13 @@ package props
 
 import (
 	"fmt"
+	"math/big"
 	"testing"
 
 	"verif/corp"
 	"verif/cs"
 	"verif/eng"
+	"verif/gad"
 	"verif/rec"
 	"verif/wv"
 
@@ -87,6 +89,26 @@ func c02Run(it c02Item) (ok bool, desc string, extra map[string]any) {
 		err := test.IsSolved(c, w, ecc.BN254.ScalarField())
 		gl.VerifResetChips()
 		return err == nil, fmt.Sprint(err), nil
+	case "process-history":
+		// a long-lived process builds many circuits: the repository's process-wide chip cache is never
+		// emptied between them (the harness normally empties it through a hook to bound memory)
+		fn := func(api frontend.API, v []frontend.Variable) []frontend.Variable {
+			gl.New(api).RangeCheck(gl.NewVariable(v[0]))
+			for i := 0; i < c06Pad; i++ {
+				gl.New(api).RangeCheckWithMaxBits(gl.NewVariable(v[1]), 16)
+			}
+			return nil
+		}
+		defer gl.VerifResetChips()
+		for i := 0; i < it.K; i++ {
+			o := opt
+			o.KeepChipCache = true
+			res, _ := gad.Run(o, []*big.Int{big.NewInt(int64(i)), big.NewInt(0)}, fn)
+			if res.Outcome != eng.Accept {
+				return false, fmt.Sprintf("circuit number %d built in this process (chip cache never emptied) is not accepted: %s", i+1, fmtRes(res)), nil
+			}
+		}
+		return true, "", map[string]any{"circuits_in_one_process": it.K}
 	case "monitor":
 		mon := eng.NewMonitor()
 		opt.Mon = mon
@@ -119,7 +141,7 @@ func c02Run(it c02Item) (ok bool, desc string, extra map[string]any) {
 func TestC02(t *testing.T) {
 	r := rec.New("C02")
 	defer r.Flush()
-	r.Rule("work items (corpus proof in {A1,A2 (16 public inputs), B1,B2,B3 (97)}, query-round prefix k in 1..28, engine flavour {native, plain(bit decomposition), commit, forced bit decomposition}, wrapper {VerifierCircuit, CircuitFixed (A instances), gnark test engine, bound-monitored run}, backend {evaluation engine; whole circuit compiled with gnark's real R1CS / SCS builder for the commit, forced-bit and native mechanisms and solved}); every item is a complete honest verification and must be ACCEPTed; monitored runs additionally require, at every witnessed reduction/multiply-add (grouped by static call site), that the largest operand an honest prover can produce fits the quotient width the circuit enforces.  Every item is non-trivial; distinct = item tuple.")
+	r.Rule("work items (corpus proof in {A1,A2 (16 public inputs), B1,B2,B3 (97)}, query-round prefix k in 1..28, engine flavour {native, plain(bit decomposition), commit, forced bit decomposition}, wrapper {VerifierCircuit, CircuitFixed (A instances), gnark test engine, bound-monitored run, 'process history' = 40 circuits built one after the other in one process without ever emptying the repository's chip cache}, backend {evaluation engine; whole circuit compiled with gnark's real R1CS / SCS builder for the commit, forced-bit and native mechanisms and solved}); every item is a complete honest verification and must be ACCEPTed; monitored runs additionally require, at every witnessed reduction/multiply-add (grouped by static call site), that the largest operand an honest prover can produce fits the quotient width the circuit enforces.  Every item is non-trivial; distinct = item tuple.")
 	r.Assume("the five corpus proofs were produced by the real plonky2 prover (they are accepted by the independent reference verifier)", "prefix restriction of an honest proof is an honest proof of the adjusted configuration", "monitor completeness side assumes values passing the Goldilocks RangeCheck are < p (C06)")
 
 	var rp c02Item
@@ -168,6 +190,8 @@ func TestC02(t *testing.T) {
 			add([]string{"A1", "B1", "A2", "B2", "B3"}[k%5], k, eng.ModeNative, false, "plain")
 		}
 		add("A1", 1, eng.ModePlain, false, "fixed")
+		add("A1", 40, eng.ModeCommit, false, "process-history")
+		add("A1", 40, eng.ModeNative, false, "process-history")
 		add("B1", 2, eng.ModeCommit, false, "plain")
 	} else {
 		// compiled whole verifier: full proofs under the deployed configuration, prefixes under the others
@@ -192,6 +216,7 @@ func TestC02(t *testing.T) {
 				}
 			}
 			add(b, 28, eng.ModeNative, false, "gnark-engine")
+			add(b, 60, []eng.Mode{eng.ModeCommit, eng.ModePlain, eng.ModeNative}[len(items)%3], false, "process-history")
 			add(b, 28, eng.ModeNative, false, "monitor")
 			add(b, 3, eng.ModePlain, false, "monitor")
 			add(b, 28, eng.ModeNative, true, "plain")
